@@ -9,6 +9,7 @@ behave exactly as in the fault-free run.
 
 from __future__ import annotations
 
+import asyncio
 import errno
 import gc
 import hashlib
@@ -91,7 +92,101 @@ def essence(sobs):
     return out
 
 
+STAGGER_FIRST = ["MKD p1", "RMD d1/sub", "DELE a.bin", "MLST a.bin", "CWD d1", "RNFR a.bin"]
+STAGGER_SECOND = ["PWD", "NOOP", "MLST b.bin"]
+
+
+def run_stagger_case(case):
+    """The next command line arrives k event-loop steps after the one that hits the backend
+    fault (zero-latency network, backend without delays): somewhere in that window the failed
+    handler and the freshly read line complete in the same round of the dispatcher.  The
+    failed command gets its 451, the next one its normal reply, and the session goes on."""
+    sc = {"seed": case["seed"], "server": {"block_size": 16, "wait_future_timeout": 5.0, "users": corpus.USERS}, "net": {"latency": [0.0, 0.0], "send_delay": 0.0, "accept_delay": [0.0, 0.0], "seg_mode": "whole"}, "fs": {"delay": None, "tree": corpus.tree("/s0", 16)}}
+    viol = []
+    info = {}
+    world = scenario.setup_world(sc)
+    with world:
+        server = scenario.finish_setup(world, sc)
+        from simftp.peers import PeerGone, RawPeer, ReplyTimeout
+
+        peer = RawPeer(world, "s0", reply_timeout=50.0)
+        first, second = case["first"], case["second"]
+
+        async def main():
+            await server.start("127.0.0.1", 2121)
+            await world.spawn(session(), "s0")
+            peer.close()
+            await asyncio.sleep(1)
+            await asyncio.wait_for(server.close(), 1e4)
+
+        async def session():
+            await peer.connect()
+            await peer.cmd("USER anonymous")
+            await peer.cmd("CWD /s0")
+            for _ in range(case.get("warm", 0)):
+                await peer.cmd("NOOP")
+            n0 = world.fsctl.per_label.get("s0", 0)
+            if case.get("j"):
+                world.fsctl.fail_label_at[("s0", n0 + case["j"])] = case.get("err", errno.EIO)
+
+            def send_second():
+                if info.get("second_sent"):
+                    return
+                info["second_sent"] = True
+                peer.note("C", second)
+                peer.writer.write((second + "\r\n").encode())
+
+            peer.note("C", first)
+            peer.writer.write((first + "\r\n").encode())
+            if case["k"] == 0:
+                send_second()
+            else:
+                world.loop.at_step(world.loop.steps + case["k"], send_second)
+                # the loop only steps while something is runnable: when the server has gone
+                # quiet before step k, the line leaves one virtual millisecond later instead
+                world.loop.call_later(0.001, send_second)
+            got = []
+            try:
+                got.append((await peer.reply(50.0))[0])
+                got.append((await peer.reply(50.0))[0])
+                got.append((await peer.cmd("PWD"))[0])
+            except ReplyTimeout:
+                got.append("<no reply>")
+            except PeerGone:
+                got.append("<closed>")
+            info["got"] = got
+            info["calls"] = world.fsctl.per_label.get("s0", 0) - n0
+            fired = len(world.fsctl.faults_fired)
+            info["fired"] = fired
+            if fired:
+                if got[:1] != ["451"]:
+                    viol.append({"clause": "fault-not-answered-451", "subject": f"{first.split()[0]}:staggered", "detail": f"{first!r} with its backend call {case['j']} failing, {second!r} sent {case['k']} loop steps later: replies {got}"})
+                elif len(got) < 3 or got[1][0] not in "2345" or got[2] != "257":
+                    viol.append({"clause": "session-unusable-after-backend-failure", "subject": f"{first.split()[0]}:staggered", "detail": f"{first!r} failed in the backend (451), {second!r} arrived {case['k']} loop steps after it: replies {got} - the next command was not answered / the session did not go on"})
+
+        world.run(main())
+        if world.outcome not in ("ok", "budget", "deadlock"):
+            raise common.HarnessError(f"scenario failed: {world.outcome}: {world.error!r}")
+        res = {
+            "digest": world.digest([tuple(x[1:]) for x in peer.transcript] + [case["k"], case.get("j")]),
+            "nontrivial": bool(info.get("fired")),
+            "vtime": world.loop.time() - 1000.0,
+            "events": world.net.seq,
+            "steps": world.loop.steps,
+            "outcome": world.outcome,
+            "counters": {"faults.fs_calls_failed": info.get("fired", 0), "probe.next_command_staggered_by_steps": 1},
+            "groups": {"fault_verb": {first.split()[0] + "/staggered": int(bool(info.get("fired")))}},
+            "violations": viol,
+            "calls": info.get("calls", 0),
+        }
+        if case.get("want_sample"):
+            res["sample"] = {"case": case, "transcript": [list(x) for x in peer.transcript][:20]}
+    return res
+
+
 def run_case(case):
+    if case.get("kind") == "stagger":
+        return run_stagger_case(case)
     sc = build(case)
     viol = []
     state = {}
@@ -131,6 +226,18 @@ def run_case(case):
                 viol.append({"clause": "fault-not-answered-451", "subject": f"{verb}:{fop}", "detail": f"backend {fop} failed during {op[1]!r}: mark={res.get('mark')} final={final} how={res.get('how')}"})
             if res.get("mark") and res.get("how") == "timeout":
                 viol.append({"clause": "peer-left-waiting-on-data-channel", "subject": f"{verb}:{fop}", "detail": f"after {res.get('mark')} and a backend failure in {fop} the server never closed the data connection (peer waited 500 virtual s)"})
+        elif op[0] in ("raw", "reply"):
+            # a pipelined burst: the fault hit one of its commands; the group of replies that
+            # belongs to the burst must contain the 451 (and, below, the session must go on)
+            lo = idx
+            while lo > 0 and s0.ops[lo]["op"][0] != "raw":
+                lo -= 1
+            hi = lo + 1
+            while hi < len(s0.ops) and s0.ops[hi]["op"][0] == "reply":
+                hi += 1
+            codes = [(r.get("reply") or (None,))[0] for r in s0.ops[lo + 1 : hi]]
+            if "451" not in codes and None not in codes:
+                viol.append({"clause": "fault-not-answered-451", "subject": f"pipelined:{fop}", "detail": f"backend {fop} failed during the pipelined burst {s0.ops[lo]['op'][1]!r}, replies {codes}"})
         else:
             viol.append({"clause": "fault-outside-command", "subject": f"{op[0]}:{fop}", "detail": f"backend call failed during op {op}"})
     if faulted_ops:
@@ -144,7 +251,7 @@ def run_case(case):
             ok = pr[0].get("reply", (None,))[0] == "257" and pr[1]["res"].get("final") == "226" and pr[2]["res"].get("final") == "226" and pr[2]["res"].get("data") == scenario.payload("STOR /probe_s0.bin", 37)
             if not ok:
                 first_f = next(r for r in s0.ops if r.get("fs_faults"))
-                viol.append({"clause": "session-unusable-after-backend-failure", "subject": f"{first_f['op'][1].split()[0]}:{first_f['fs_faults'][0][0]}", "detail": f"probe after the fault failed: {[(r.get('reply') or {k: v for k, v in r.get('res', {}).items() if k in ('pre', 'mark', 'final', 'how')}) for r in pr]}"})
+                viol.append({"clause": "session-unusable-after-backend-failure", "subject": f"{first_f['op'][1].split()[0] if len(first_f['op']) > 1 else first_f['op'][0]}:{first_f['fs_faults'][0][0]}", "detail": f"probe after the fault failed: {[(r.get('reply') or {k: v for k, v in r.get('res', {}).items() if k in ('pre', 'mark', 'final', 'how')}) for r in pr]}"})
     for lab, cid in state.get("open_data", []):
         viol.append({"clause": "data-connection-left-open", "subject": f"{lab}", "detail": f"server-side data transport of conn {cid} ({lab}) still open after all sessions finished"})
     for e in world.loop.exc_log:
@@ -295,6 +402,14 @@ def main(argv=None):
                 plan.append({"script": case["script"], "seed": case["seed"], "k": k, "burst": True, "err": errs[0], "others": case["others"], "others_ref": res["others"]})
             for op in simfs.OPS:
                 plan.append({"script": case["script"], "seed": case["seed"], "allop": op, "err": r.choice(ERRS), "others": case["others"], "others_ref": res["others"]})
+        # step-granular sub-sweep: the next line arrives k loop steps after the faulted one
+        stag = []
+        for fi, first in enumerate(STAGGER_FIRST):
+            pil = run_stagger_case({"kind": "stagger", "seed": a.seed * 100 + fi, "first": first, "second": "PWD", "k": 0, "j": 0})
+            for j in range(1, pil["calls"] + 1):
+                for k in range(0, 40, 1 if not quick else 1):
+                    stag.append({"kind": "stagger", "seed": a.seed * 100 + fi, "first": first, "second": STAGGER_SECOND[(j + k) % len(STAGGER_SECOND)], "k": k, "j": j, "warm": (k + j) % 3})
+        plan = stag + plan
         total = len(plan)
         for c in plan[:2]:
             c["want_sample"] = True
